@@ -2,3 +2,5 @@ pub mod build;
 pub mod error;
 pub mod lex;
 pub mod parse;
+#[cfg(garnish_verif)]
+pub mod verif;
